@@ -79,6 +79,10 @@ class World:
 
 def mk_sevm(options=None, **over):
     options = options or mk_options(**over)
+    from halmos.mapper import BuildOut
+
+    if BuildOut()._build_out_map is None:  # CREATE resolves contract names through the (here empty) build output
+        BuildOut().set_build_out({})
     fun_info = FunctionInfo("TestContract", "test", "test()", "f8a8fd6d")
     return SEVM(options, fun_info)
 
